@@ -331,7 +331,7 @@ func checkC14(r *Result) []Violation {
 }
 
 func init() {
-	register(&propDef{ID: "C14", Gen: genC14, Check: checkC14, Foreign: foreignCrash,
+	register(&propDef{ID: "C14", Gen: genC14, Check: withCrashRule("C14", checkC14),
 		Interesting: func(r *Result) bool {
 			for _, e := range r.Hist {
 				if e.K == KSrvWrite && e.Err == "" {
